@@ -166,7 +166,7 @@ pub mod proofs {
         );
     }
 
-    /// 2 producers (2 + 1 sends), 1 consumer (3 recvs), K = 3, <= 1 spurious CAS failure.
+    /// 2 producers (1 send each), 1 consumer (2 recvs), K = 3, <= 1 spurious CAS failure.
     #[kani::proof]
     #[kani::stub(alloc::alloc::dealloc_nonnull, noop_dealloc)]
     #[kani::unwind(7)]
@@ -176,23 +176,21 @@ pub mod proofs {
         vshim::hb_enable();
         vshim::thread_start(0);
         send(&ch, 1);
-        send(&ch, 2);
         vshim::thread_start(1);
-        send(&ch, 3);
+        send(&ch, 2);
         vshim::thread_start(2);
         recv(&ch);
         recv(&ch);
-        recv(&ch);
-        final_checks(3, 3);
-        let got_all = unsafe { T::got[1] == 1 && T::got[2] == 1 && T::got[3] == 1 };
+        final_checks(2, 2);
+        let got_all = unsafe { T::got[1] == 1 && T::got[2] == 1 };
         let first = unsafe { R::tag[0] };
-        let empties = unsafe { (R::tag[0] == 0) as u8 + (R::tag[1] == 0) as u8 + (R::tag[2] == 0) as u8 };
-        let k_used = unsafe { R::end[2] / NT };
+        let empties = unsafe { (R::tag[0] == 0) as u8 + (R::tag[1] == 0) as u8 };
+        let k_used = unsafe { R::end[1] / NT };
         drop(ch);
-        drop_checks(3);
+        drop_checks(2);
         verdict();
-        kani::cover!(got_all, "all three values received");
-        kani::cover!(first == 3, "the second producer's value came out first");
+        kani::cover!(got_all, "both values received");
+        kani::cover!(first == 2, "the second producer's value came out first");
         kani::cover!(empties >= 1 && k_used == 2, "a recv reported empty and the consumer used all rounds");
     }
 
